@@ -232,9 +232,10 @@ def sense(t4, s, p, eps=1e-9):
     return 1 if v > 0 else -1
 
 
-def sense_rows(t4, pts2):
-    """pts2: probe points in doubled integer coordinates.  One row per SURF line."""
-    pts = [(a / 2.0, b / 2.0, c / 2.0) for a, b, c in pts2]
+def sense_rows(t4, pts2, real_points=None):
+    """pts2: probe points in doubled integer coordinates.  One row per SURF line.
+    real_points: evaluate at these float points instead (covariance runs)."""
+    pts = real_points if real_points is not None else [(a / 2.0, b / 2.0, c / 2.0) for a, b, c in pts2]
     rows = []
     for s in t4['surfs']:
         try:
@@ -314,7 +315,7 @@ def vol_tokens(v):
     return kinds, vals
 
 
-def project(t4, pts2=None, with_witness=False):
+def project(t4, pts2=None, with_witness=False, real_points=None):
     """Abstract, TLC-friendly view of a parsed file."""
     surfs = []
     for s in t4['surfs']:
@@ -376,7 +377,7 @@ def project(t4, pts2=None, with_witness=False):
     else:
         out['bc'] = {'present': False, 'declared': 0, 'items': []}
     if pts2 is not None:
-        out['rows'] = sense_rows(t4, pts2)
+        out['rows'] = sense_rows(t4, pts2, real_points)
     if with_witness:
         out['wit'] = [witness(t4, s) for s in t4['surfs']]
     return out
